@@ -42,7 +42,7 @@ func cases(tier string) int {
 }
 
 var blockers = []string{"none", "none", "node-dnd", "pod-dnd-true", "pod-dnd-duration-active", "pod-dnd-duration-expired", "pod-dnd-duration-boundary",
-	"daemon-pod-dnd", "pdb-zero", "pdb-multi", "pdb-allowing", "nominated", "deleting", "recent-pod-event", "terminal-pod-dnd"}
+	"daemon-pod-dnd", "pdb-zero", "pdb-multi", "pdb-allowing", "nominated", "renominated", "deleting", "recent-pod-event", "terminal-pod-dnd"}
 
 type world7 struct {
 	d           *common.DWorld
@@ -50,6 +50,7 @@ type world7 struct {
 	mode        string
 	applied     map[string]string    // node name -> blocker applied by the harness (bookkeeping for evidence only)
 	nominatedAt map[string]time.Time // node name -> last nomination instant (harness knowledge)
+	renominate  []*corev1.Node       // nodes whose nomination is renewed shortly before the first window ends
 	inflight    map[string]bool
 	seq         int
 }
@@ -153,6 +154,11 @@ func (w *world7) apply(node *corev1.Node, nc *v1.NodeClaim, b string) {
 	case "nominated":
 		e.Cluster.NominateNodeForPod(e.Ctx, node.Spec.ProviderID)
 		w.nominatedAt[node.Name] = now
+	case "renominated":
+		// nominated now and once more shortly before this first window ends (see renewNominations)
+		e.Cluster.NominateNodeForPod(e.Ctx, node.Spec.ProviderID)
+		w.nominatedAt[node.Name] = now
+		w.renominate = append(w.renominate, node)
 	case "deleting":
 		cur := nc.DeepCopy()
 		if e.Get(cur) {
@@ -253,10 +259,7 @@ func (w *world7) judgeCandidate(c *disruption.Candidate, reason v1.DisruptionRea
 	if w.inflight[c.Name()] {
 		out = append(out, "already-in-flight")
 	}
-	window := 2 * e.Opts.BatchMaxDuration
-	if window < 10*time.Second {
-		window = 10 * time.Second
-	}
+	window := w.window()
 	if t, ok := w.nominatedAt[c.Name()]; ok && now.Before(t.Add(window)) {
 		out = append(out, "nominated")
 	}
@@ -396,7 +399,14 @@ func run(r *mon.Report, tier string, idx int, rng *rand.Rand) {
 	w := &world7{d: d, rng: rng, mode: mode, applied: map[string]string{}, nominatedAt: map[string]time.Time{}, inflight: map[string]bool{}}
 	// blockers, one per node at most
 	e.Clock.Step(6 * time.Minute) // consolidateAfter=5m elapsed for everything that exists now
-	for name, v := range w.views() {
+	initial := w.views()
+	var initialNames []string
+	for name := range initial {
+		initialNames = append(initialNames, name)
+	}
+	sortStrings(initialNames)
+	for _, name := range initialNames {
+		v := initial[name]
 		if v.claim == nil {
 			continue
 		}
@@ -408,6 +418,7 @@ func run(r *mon.Report, tier string, idx int, rng *rand.Rand) {
 		w.apply(v.node, v.claim, b)
 		r.Inc("blocker_applied:" + b)
 	}
+	w.renewNominations(r)
 	w.settle()
 	caseDesc := map[string]any{"case": idx, "mode": mode, "options": optDesc, "nodes": d.NodeInfo, "blockers": w.applied}
 	// blockers applied during the validation wait
@@ -493,6 +504,30 @@ func run(r *mon.Report, tier string, idx int, rng *rand.Rand) {
 	}
 }
 
+func (w *world7) window() time.Duration {
+	window := 2 * w.d.Env.Opts.BatchMaxDuration
+	if window < 10*time.Second {
+		window = 10 * time.Second
+	}
+	return window
+}
+
+// renewNominations: a later scheduling pass nominates the "renominated" nodes again 2 s before their first nomination
+// window ends; 3 s later the first window is over while the renewed one still has most of its length to run.
+func (w *world7) renewNominations(r *mon.Report) {
+	if len(w.renominate) == 0 {
+		return
+	}
+	e := w.d.Env
+	e.Clock.Step(w.window() - 2*time.Second)
+	for _, n := range w.renominate {
+		e.Cluster.NominateNodeForPod(e.Ctx, n.Spec.ProviderID)
+		w.nominatedAt[n.Name] = e.Clock.Now()
+		r.Inc("nominations_renewed_inside_the_window")
+	}
+	e.Clock.Step(3 * time.Second)
+}
+
 func sortStrings(a []string) {
 	for i := 1; i < len(a); i++ {
 		for j := i; j > 0 && a[j] < a[j-1]; j-- {
@@ -508,7 +543,7 @@ var _ = world.Epoch
 func init() {
 	reg.Register(&reg.Prop{
 		ID: "C07", Level: "exploration",
-		Rule: "each case = cluster grown through the real pipeline and made attractive for one mode (all nodes empty / underutilised / drifted / drifted with terminationGracePeriod / mixed), pools with consolidateAfter 0s/5m/Never and policies WhenEmpty/WhenEmptyOrUnderutilized/Balanced, some nodes uninitialised; every node then gets at most one blocker or control (node do-not-disrupt, pod do-not-disrupt true / duration active / expired / about to expire, daemon pod do-not-disrupt, terminal pod do-not-disrupt, PDB with zero allowed, two PDBs, allowing PDB, nominated, deleting, recent pod event) and further blockers are applied during the 15 s validation wait; 3-5 reconciles of the real disruption controller. Each candidate of each accepted command is judged against the statement's conjunction recomputed from the authoritative world (nominations from the harness' own record). Non-trivial = a command was produced while blocked nodes existed; distinct by (method, blocker spared or selected-node class).",
+		Rule:  "each case = cluster grown through the real pipeline and made attractive for one mode (all nodes empty / underutilised / drifted / drifted with terminationGracePeriod / mixed), pools with consolidateAfter 0s/5m/Never and policies WhenEmpty/WhenEmptyOrUnderutilized/Balanced, some nodes uninitialised; every node then gets at most one blocker or control (node do-not-disrupt, pod do-not-disrupt true / duration active / expired / about to expire, daemon pod do-not-disrupt, terminal pod do-not-disrupt, PDB with zero allowed, two PDBs, allowing PDB, nominated, nominated and renewed shortly before the first window ends, deleting, recent pod event) and further blockers are applied during the 15 s validation wait; 3-5 reconciles of the real disruption controller. Each candidate of each accepted command is judged against the statement's conjunction recomputed from the authoritative world (nominations from the harness' own record). Non-trivial = a command was produced while blocked nodes existed; distinct by (method, blocker spared or selected-node class).",
 		Cases: cases, Run: run,
 		MinObserved: map[string]int{"candidates_judged": 100},
 	})
